@@ -15,6 +15,10 @@
 //!   created INCLUDING dead ones: `add_edge(i,j,marker)`, `remove_edge(i,j)`, `remove_outgoing_edges_of_node(i)`,
 //!   `remove_node(i)`.
 //! * `C10` and `C11` share the search; each run evaluates only the oracles of its own property.
+//! * Two further phases reach what the full alphabet cannot reach at an affordable cost: `Mode::EdgesOnly` (all
+//!   `add_edge` sequences over 5 or 6 nodes created first, states merged modulo renaming of the nodes to their
+//!   ranks, complete query battery after every transition) and the rank-distance sweep (`sweep`: for every distance
+//!   d up to 160 / 600 an insertion whose affected region spans exactly d + 1 ranks, in twelve shapes).
 //!
 //! ## Why merging states on the canonical bytes is exact
 //!
@@ -161,6 +165,25 @@ fn alphabet(k: usize, a: usize) -> Vec<Op> {
   ops
 }
 
+/// The alphabet of a state under the search mode.
+fn alphabet_for(bounds: &Bounds, model: &Model) -> Vec<Op> {
+  let (k, a) = (model.k(), bounds.nodes_ever_created);
+  match bounds.mode {
+    Mode::Full => alphabet(k, a),
+    Mode::EdgesOnly { max_edges } => {
+      if k < a { return vec![Op::AddNode]; }
+      let mut ops = Vec::with_capacity(k * k);
+      for i in 0..k as u8 {
+        for j in 0..k as u8 {
+          let adds = i != j && model.edge_data(i, j).is_none() && !model.reaches(j, i);
+          if model.edges.len() < max_edges || !adds { ops.push(Op::AddEdge(i, j)); }
+        }
+      }
+      ops
+    }
+  }
+}
+
 #[derive(Clone, Copy, PartialEq, Eq, Debug)]
 pub enum ErrKind { NodeMissing, CycleDetected }
 
@@ -235,10 +258,10 @@ impl Model {
     let mut seen = vec![false; self.k()];
     let mut stack = vec![from];
     while let Some(x) = stack.pop() {
-      for e in &self.edges {
-        if e.0 == x && !seen[e.1 as usize] {
-          seen[e.1 as usize] = true;
-          stack.push(e.1);
+      for (c, _) in &self.out[x as usize] {
+        if !seen[*c as usize] {
+          seen[*c as usize] = true;
+          stack.push(*c);
         }
       }
     }
@@ -597,6 +620,49 @@ fn encode_key(prop: Prop, obs: &Obs, model: &Model, slot_sig: &[u8], taint: Opti
   b.extend_from_slice(slot_sig);
   b.push(slot_sig.len() as u8);
   b.into_boxed_slice()
+}
+
+/// Observation and model with every node renamed to its rank - 1 (`Mode::EdgesOnly`); `None` if the ranks are not a
+/// bijection onto 1..n over alive nodes (then no renaming is done, which only costs some merging).
+fn renamed_by_rank(obs: &Obs, model: &Model) -> Option<(Obs, Model)> {
+  let k = obs.k();
+  if model.k() != k || obs.len != k { return None; }
+  let mut perm = vec![0u8; k];
+  let mut used = vec![false; k];
+  for i in 0..k {
+    let r = obs.rank[i]? as usize;
+    if !obs.alive[i] || r < 1 || r > k || used[r - 1] { return None; }
+    used[r - 1] = true;
+    perm[i] = (r - 1) as u8;
+  }
+  let map = |x: u8| if (x as usize) < k { perm[x as usize] } else { x };
+  let map_list = |l: &Vec<(u8, u16)>| l.iter().map(|(x, d)| (map(*x), *d)).collect::<Vec<_>>();
+  let mut o = Obs {
+    len: obs.len, alive: vec![true; k], rank: (1..=k as u32).map(Some).collect(), unknown_listed: obs.unknown_listed, listed_twice: obs.listed_twice,
+    out: vec![Vec::new(); k], inc: vec![Vec::new(); k], stray: obs.stray.iter().map(|(s, d, m)| (map(*s), map(*d), *m)).collect(), handle_collision: obs.handle_collision,
+  };
+  o.stray.sort();
+  let mut m = Model { alive: vec![false; k], edges: model.edges.iter().map(|(s, d, x)| (map(*s), map(*d), *x)).collect(), out: vec![Vec::new(); k], inc: vec![Vec::new(); k] };
+  for i in 0..k {
+    let p = perm[i] as usize;
+    o.out[p] = map_list(&obs.out[i]);
+    o.inc[p] = map_list(&obs.inc[i]);
+    m.alive[p] = model.alive[i];
+    m.out[p] = map_list(&model.out[i]);
+    m.inc[p] = map_list(&model.inc[i]);
+  }
+  Some((o, m))
+}
+
+/// The key of a state under the search mode.
+fn state_key(prop: Prop, mode: Mode, obs: &Obs, model: &Model, real: &Real, taint: Option<Op>) -> Box<[u8]> {
+  match mode {
+    Mode::Full => encode_key(prop, obs, model, &real.slot_signature(), taint),
+    Mode::EdgesOnly { .. } => match renamed_by_rank(obs, model) {
+      Some((o, m)) => encode_key(prop, &o, &m, &[], None),
+      None => encode_key(prop, obs, model, &[], None),
+    },
+  }
 }
 
 /// The operation that left the state unchanged, as key bytes (`None` = 0,0,0).
@@ -1183,8 +1249,26 @@ fn query_battery(prop: Prop, real: &Real, m2: &Model, obs: &Obs, op: Op, stats: 
 // Breadth-first search
 // ---------------------------------------------------------------------------------------------------------------
 
+/// What a search enumerates.
+#[derive(Clone, Copy, PartialEq, Eq, Debug)]
+pub enum Mode {
+  /// The full alphabet over all handles ever created, one-step taint, slot assignment in the key.
+  Full,
+  /// Larger graphs at lower cost: first `nodes_ever_created` times `add_node`, then only `add_edge(i, j)` for all
+  /// ordered pairs (self loops, re-insertions and cycle-closing insertions included) while fewer than `max_edges`
+  /// edges are present; with `max_edges` edges present only the insertions that must not add an edge. No removals,
+  /// hence no dead handles and no slot reuse; no taint. States are merged MODULO RENAMING OF THE NODES: every node is
+  /// renamed to its rank (ranks are a bijection onto 1..n, otherwise no renaming is done), which is a canonical form
+  /// under all n! permutations of the handles. This symmetry reduction is exact for implementations that treat node
+  /// keys opaquely (module documentation, point 1: equal / hash / slotmap lookup only; the order in which hash sets
+  /// are iterated never reaches an observable because change sets are sorted by rank before use); the `Full` search
+  /// does not use it.
+  EdgesOnly { max_edges: usize },
+}
+
 #[derive(Clone, Debug)]
 pub struct Bounds {
+  pub mode: Mode,
   pub nodes_ever_created: usize,
   pub state_cap: usize,
   pub wall_cap_s: f64,
@@ -1294,7 +1378,8 @@ fn expand(prop: Prop, bounds: &Bounds, store: &Store, id: u32, out: &mut ChunkOu
   let taint_pre = if store.tainted[id as usize] { Some(store.via[id as usize]) } else { None };
   let mut pre: Option<(Obs, Box<[u8]>)> = None; // observation and untainted key of this state
   let mut slots: Option<Vec<Option<u32>>> = None; // slots of this state's handles, parsed in the first replay
-  for op in alphabet(model.k(), bounds.nodes_ever_created) {
+  let mode = bounds.mode;
+  for op in alphabet_for(bounds, &model) {
     let mut real = replay_real(&path, &pre_queries, slots.as_ref(), &mut out.stats);
     if slots.is_none() { slots = Some(real.slots.clone()); }
     if pre.is_none() {
@@ -1302,7 +1387,7 @@ fn expand(prop: Prop, bounds: &Bounds, store: &Store, id: u32, out: &mut ChunkOu
         Ok(o) => o,
         Err(_) => engine_error(&format!("observing the replayed path {:?} panicked", render_path(&path))),
       };
-      let key_pre = encode_key(prop, &obs_pre, &model, &real.slot_signature(), taint_pre);
+      let key_pre = state_key(prop, mode, &obs_pre, &model, &real, taint_pre);
       if store.keys.get(&key_pre) != Some(&id) {
         engine_error(&format!("replaying {:?} does not reproduce the recorded state {}", render_path(&path), id));
       }
@@ -1313,13 +1398,15 @@ fn expand(prop: Prop, bounds: &Bounds, store: &Store, id: u32, out: &mut ChunkOu
     let outcome = step_core(prop, &mut real, &model, obs_pre, op, marker, &mut out.stats).and_then(|(obs, m2)| {
       // Nothing observable changed: the successor is this state (without its own taint) tainted with `op`.
       // (Shortcut: identical observation and model give identical bytes, no need to encode them again.)
+      let taint = |k: &[u8]| if mode == Mode::Full { with_taint(k, Some(op)) } else { k.to_vec().into_boxed_slice() };
       let (noop, key) = if op != Op::AddNode && obs == *obs_pre && m2 == model {
-        (true, with_taint(key_pre_clean, Some(op)))
+        (true, taint(key_pre_clean))
       } else {
-        let clean = encode_key(prop, &obs, &m2, &real.slot_signature(), None);
+        let clean = state_key(prop, mode, &obs, &m2, &real, None);
         let noop = clean[..] == key_pre_clean[..];
-        (noop, if noop { with_taint(&clean, Some(op)) } else { clean })
+        (noop, if noop { taint(&clean) } else { clean })
       };
+      let noop = noop && mode == Mode::Full; // only the full search keeps no-op successors as (tainted) states
       let known = store.keys.contains_key(&key);
       if bounds.battery_after_every_transition || !known { query_battery(prop, &real, &m2, &obs, op, &mut out.stats)?; }
       Ok((key, noop, known))
@@ -1329,7 +1416,7 @@ fn expand(prop: Prop, bounds: &Bounds, store: &Store, id: u32, out: &mut ChunkOu
         if !known { out.succ.push((id, op, key, noop)); }
       }
       Err(_) => {
-        let f = confirm_failure(prop, store, id, &path, &pre_queries, &model, taint_pre, op);
+        let f = confirm_failure(prop, bounds, store, id, &path, &pre_queries, &model, taint_pre, op);
         out.n_fails += 1;
         if out.fails.len() < KEEP_PER_CHUNK { out.fails.push((id, op, f)); }
       }
@@ -1340,14 +1427,14 @@ fn expand(prop: Prop, bounds: &Bounds, store: &Store, id: u32, out: &mut ChunkOu
 /// Re-executes a failed transition from scratch: fresh replay, the pre-state observed and required to be the recorded
 /// one, all oracles of the property. Only a failure that shows again is reported; anything else is an engine error
 /// (non-reproducible execution), never a verdict.
-fn confirm_failure(prop: Prop, store: &Store, id: u32, path: &[Op], pre_queries: &[Option<(u8, u8)>], model: &Model, taint_pre: Option<Op>, op: Op) -> Fail {
+fn confirm_failure(prop: Prop, bounds: &Bounds, store: &Store, id: u32, path: &[Op], pre_queries: &[Option<(u8, u8)>], model: &Model, taint_pre: Option<Op>, op: Op) -> Fail {
   let mut scratch = Stats::default();
   let mut real = replay_real(path, pre_queries, None, &mut scratch);
   let obs_pre = match catch_unwind(AssertUnwindSafe(|| observe(&real))) {
     Ok(o) => o,
     Err(_) => engine_error(&format!("observing the replayed path {:?} panicked", render_path(path))),
   };
-  if store.keys.get(&encode_key(prop, &obs_pre, model, &real.slot_signature(), taint_pre)) != Some(&id) {
+  if store.keys.get(&state_key(prop, bounds.mode, &obs_pre, model, &real, taint_pre)) != Some(&id) {
     engine_error(&format!("replaying {:?} does not reproduce the recorded state {}", render_path(path), id));
   }
   match step(prop, &mut real, model, &obs_pre, op, marker_for(path.len()), &mut scratch) {
@@ -1374,7 +1461,7 @@ pub fn search(prop: Prop, bounds: &Bounds) -> SearchOut {
   let mut store = Store { keys: HashMap::default(), parent: vec![0], via: vec![Op::AddNode], tainted: vec![false] };
   {
     let real = Real::new();
-    let key = encode_key(prop, &observe(&real), &Model::new(), &real.slot_signature(), None);
+    let key = state_key(prop, bounds.mode, &observe(&real), &Model::new(), &real, None);
     store.keys.insert(key, 0);
   }
   let mut stats = Stats::default();
@@ -1483,11 +1570,385 @@ pub fn search(prop: Prop, bounds: &Bounds) -> SearchOut {
   } else {
     None
   };
-  let slot_signature_in_key = store.keys.keys().all(|k| *k.last().unwrap() != 0);
+  let slot_signature_in_key = bounds.mode == Mode::Full && store.keys.keys().all(|k| *k.last().unwrap() != 0);
   SearchOut {
     bounds: bounds.clone(), states, stats, level_sizes, fixed_point, cap_hit, depth_completely_covered, max_depth,
     fails, violating_transitions, samples, wall_s: start.elapsed().as_secs_f64(), states_modulo_slots, slot_signature_in_key,
     tainted_states: store.tainted.iter().filter(|t| **t).count(),
+  }
+}
+
+// ---------------------------------------------------------------------------------------------------------------
+// Rank-distance sweep: size thresholds that no small-graph search can reach
+// ---------------------------------------------------------------------------------------------------------------
+//
+// For every distance d in 1..=D and every shape below: create the nodes (node i gets rank i + 1), insert the shape's
+// pre-existing edges (all along the order, so no reordering happens), then insert the edge from the node ranked d
+// positions AFTER `lo` to `lo`: the affected region of that insertion spans exactly d + 1 ranks. Then the same
+// insertion once more and the reverse edge. After every operation the invariants of the property are checked
+// (C10: result, no panic, ranks a permutation of 1..n, every edge upwards in rank, a rejection changes nothing;
+// C11: all adjacency lists with order and data against the reference, a re-insertion changes nothing), and at three
+// checkpoints (before the insertion under test, after it, at the end) the C11 query battery over all ordered pairs of
+// a set of up to ~16 interesting nodes (end points of the region and of the shape's edges, neighbours, first, last,
+// middle). Exhaustive over d in the stated range for these shapes; indices are `usize`, the machinery of the
+// state-space search (u8 handles) is not used.
+
+#[derive(Clone, Debug)]
+struct SweepCase {
+  d: usize,
+  shape: &'static str,
+  nodes: usize,
+  /// Pre-existing edges, then the insertion under test, then its repetition, then the reverse edge.
+  ops: Vec<(usize, usize)>,
+  /// Index in `ops` of the insertion under test.
+  test_at: usize,
+}
+
+const SWEEP_SHAPES: [&str; 12] = [
+  "plain", "plain-offset", "forward-chain", "backward-chain", "both-chains", "both-chains-offset", "spread", "fan",
+  "cycle-direct", "cycle-mid", "cycle-pending", "cycle-chain",
+];
+
+/// The case of `shape` at distance `d`, if the shape fits into a region of that size.
+fn sweep_case(d: usize, shape: &'static str) -> Option<SweepCase> {
+  let offset = if shape.ends_with("-offset") { 3 } else { 0 };
+  let (lo, hi) = (offset, offset + d);
+  let nodes = hi + 1 + if offset > 0 { 2 } else { 0 };
+  let mid = lo + d / 2;
+  let setup: Vec<(usize, usize)> = match shape {
+    "plain" | "plain-offset" => vec![],
+    "forward-chain" if d >= 3 => vec![(lo, lo + 1), (lo + 1, lo + 2)],
+    "backward-chain" if d >= 3 => vec![(hi - 2, hi - 1), (hi - 1, hi)],
+    "both-chains" | "both-chains-offset" if d >= 5 => {
+      let mut v = vec![(lo, lo + 1), (lo + 1, lo + 2), (hi - 2, hi - 1), (hi - 1, hi)];
+      if d >= 9 { v.push((mid, mid + 1)); } // a bystander inside the region
+      v
+    }
+    "spread" if d >= 3 => vec![(lo, mid), (mid + 1, hi)],
+    "fan" if d >= 5 => vec![(lo, lo + 1), (lo, lo + 2), (hi - 2, hi), (hi - 1, hi)],
+    "cycle-direct" => vec![(lo, hi)],
+    "cycle-mid" if d >= 2 => vec![(lo, mid), (mid, hi)],
+    "cycle-pending" if d >= 4 => vec![(lo, lo + 1), (lo, mid), (mid, hi)],
+    "cycle-chain" if d >= 2 => (lo..hi).map(|i| (i, i + 1)).collect(),
+    _ => return None,
+  };
+  let test_at = setup.len();
+  let mut ops = setup;
+  ops.extend([(hi, lo), (hi, lo), (lo, hi)]);
+  Some(SweepCase { d, shape, nodes, ops, test_at })
+}
+
+/// Reference for the sweep: adjacency lists in insertion order with data.
+struct SweepRef {
+  out: Vec<Vec<(usize, u32)>>,
+  inc: Vec<Vec<(usize, u32)>>,
+  edges: Vec<(usize, usize)>,
+}
+
+impl SweepRef {
+  fn reach(&self, from: usize) -> Vec<bool> {
+    let mut seen = vec![false; self.out.len()];
+    let mut stack = vec![from];
+    while let Some(x) = stack.pop() {
+      for (c, _) in &self.out[x] {
+        if !seen[*c] { seen[*c] = true; stack.push(*c); }
+      }
+    }
+    seen
+  }
+  fn has(&self, s: usize, d: usize) -> Option<u32> { self.out[s].iter().find(|c| c.0 == d).map(|c| c.1) }
+}
+
+/// Ranks and adjacency of the real DAG as reported by its API.
+#[derive(PartialEq, Eq, Clone, Debug)]
+struct SweepSnap {
+  len: usize,
+  rank: Vec<Option<u32>>,
+  unknown: usize,
+  out: Vec<Vec<(usize, u32)>>,
+  inc: Vec<Vec<(usize, u32)>>,
+}
+
+#[derive(Debug, Default, Clone)]
+struct SweepOut {
+  cases: u64,
+  operations: u64,
+  queries: u64,
+  cycles_rejected: u64,
+  reorderings: u64,
+  fails: Vec<(SweepCase, usize, Fail)>,
+}
+
+fn sweep_ops_text(case: &SweepCase, upto: usize) -> Vec<String> {
+  let mut v = vec![format!("add_node x {}", case.nodes)];
+  v.extend(case.ops[..=upto].iter().map(|(s, d)| format!("add_edge({},{})", s, d)));
+  v
+}
+
+/// Runs one case with the oracles of `prop`; returns the first failure (index of the failing operation, oracle).
+fn run_sweep_case(prop: Prop, case: &SweepCase, out: &mut SweepOut) -> Option<(usize, Fail)> {
+  let pid = prop.id();
+  let n = case.nodes;
+  let mut dag: DAG<u32, u32> = DAG::new();
+  let handles: Vec<Node> = (0..n).map(|i| dag.add_node(i as u32)).collect();
+  let index: HashMap<Node, usize> = handles.iter().enumerate().map(|(i, h)| (*h, i)).collect();
+  let mut reference = SweepRef { out: vec![Vec::new(); n], inc: vec![Vec::new(); n], edges: Vec::new() };
+  out.cases += 1;
+
+  let snapshot = |dag: &DAG<u32, u32>| -> SweepSnap {
+    let mut rank = vec![None; n];
+    let mut unknown = 0;
+    for (r, node) in dag.iter_unsorted() {
+      match index.get(&node) { Some(i) => rank[*i] = Some(r), None => unknown += 1 }
+    }
+    let ix = |x: &Node| index.get(x).copied().unwrap_or(usize::MAX);
+    SweepSnap {
+      len: dag.len(), rank, unknown,
+      out: handles.iter().map(|h| dag.get_outgoing_edge_nodes(h).map(|c| (ix(c), dag.get_edge_data(h, c).copied().unwrap_or(0))).collect()).collect(),
+      inc: handles.iter().map(|h| dag.get_incoming_edge_nodes(h).map(|p| (ix(p), dag.get_edge_data(p, h).copied().unwrap_or(0))).collect()).collect(),
+    }
+  };
+  let brief = |snap: &SweepSnap, around: &[usize]| -> Value {
+    json!(around.iter().map(|i| json!({"node": i, "rank": snap.rank[*i], "out (child,data)": snap.out[*i], "in (parent,data)": snap.inc[*i]})).collect::<Vec<_>>())
+  };
+
+  // The interesting nodes for the query battery.
+  let mut interesting: Vec<usize> = vec![0, n - 1, n / 2];
+  let (hi, lo) = case.ops[case.test_at];
+  for x in [lo, hi, lo + 1, hi.saturating_sub(1), (lo + hi) / 2] { if x < n { interesting.push(x); } }
+  for (s, d) in case.ops.iter().take(case.test_at).take(3).chain(case.ops.iter().take(case.test_at).rev().take(3)) { interesting.push(*s); interesting.push(*d); }
+  interesting.sort();
+  interesting.dedup();
+
+  let mut before = match catch_unwind(AssertUnwindSafe(|| snapshot(&dag))) {
+    Ok(s) => s,
+    Err(p) => return Some((0, fail(&format!("{}/panic", pid), format!("reading the graph of {} fresh nodes panicked: {}", n, panic_text(p)), json!("no panic"), json!("panic")))),
+  };
+  for (at, (s, d)) in case.ops.iter().copied().enumerate() {
+    let marker = (at + 1) as u32;
+    let what = format!("add_edge({},{}) [shape {}, region of {} ranks, {} nodes]", s, d, case.shape, case.d + 1, n);
+    // Checkpoint before the insertion under test: the queries must not be disturbed by, nor disturb, the insertion.
+    if prop == Prop::C11 && at == case.test_at {
+      if let Some(f) = sweep_battery(&dag, &handles, &index, &reference, &before, &interesting, &mut out.queries, &what, "before") { return Some((at.saturating_sub(1), f)); }
+    }
+    let existing = reference.has(s, d);
+    let expected: Result<bool, ErrKind> = if s == d || reference.reach(d)[s] { Err(ErrKind::CycleDetected) } else if existing.is_some() { Ok(false) } else { Ok(true) };
+    if expected == Ok(true) {
+      reference.out[s].push((d, marker));
+      reference.inc[d].push((s, marker));
+      reference.edges.push((s, d));
+    }
+    out.operations += 1;
+    let got = match catch_unwind(AssertUnwindSafe(|| dag.add_edge(handles[s], handles[d], marker))) {
+      Ok(Ok(b)) => Ok(b),
+      Ok(Err(DagError::CycleDetected)) => Err(ErrKind::CycleDetected),
+      Ok(Err(DagError::NodeMissing)) => Err(ErrKind::NodeMissing),
+      Err(p) => return Some((at, fail(&format!("{}/panic", pid), format!("{} panicked: {}", what, panic_text(p)), json!(format!("{:?}", expected)), json!("panic")))),
+    };
+    if expected == Err(ErrKind::CycleDetected) { out.cycles_rejected += 1; }
+    let after = match catch_unwind(AssertUnwindSafe(|| snapshot(&dag))) {
+      Ok(s) => s,
+      Err(p) => return Some((at, fail(&format!("{}/panic", pid), format!("reading the graph after {} panicked: {}", what, panic_text(p)), json!("no panic"), json!("panic")))),
+    };
+    if after.rank != before.rank { out.reorderings += 1; }
+    let around = [s, d];
+    match prop {
+      Prop::C10 => {
+        out.queries += 3;
+        if got != expected {
+          return Some((at, fail("C10/add_edge-result", format!("{} returned {:?} but the edge set demands {:?}", what, got, expected), json!(format!("{:?}", expected)), json!(format!("{:?}", got)))));
+        }
+        if expected.is_err() && after != before {
+          return Some((at, fail("C10/rejected-insertion-changed-graph", format!("{} was rejected but changed ranks or adjacency", what), brief(&before, &around), brief(&after, &around))));
+        }
+        if after.len != n || after.unknown > 0 {
+          return Some((at, fail("C10/len", format!("after {}: len() = {}, {} unknown nodes listed", what, after.len, after.unknown), json!(n), json!(after.len))));
+        }
+        let mut taken = vec![false; n + 1];
+        for i in 0..n {
+          out.queries += 1;
+          match after.rank[i] {
+            Some(r) if r >= 1 && r as usize <= n && !taken[r as usize] => taken[r as usize] = true,
+            r => return Some((at, fail("C10/rank-bijection", format!("after {}: rank {:?} of node {} is missing, outside 1..={} or held twice", what, r, i, n), json!(format!("a permutation of 1..={}", n)), brief(&after, &[i])))),
+          }
+        }
+        for (es, ed) in reference.edges.iter().copied().chain((0..n).flat_map(|i| after.out[i].iter().map(move |c| (i, c.0)))) {
+          out.queries += 1;
+          if ed >= n || !(after.rank[es] < after.rank[ed]) {
+            return Some((at, fail("C10/edge-order", format!("after {}: edge {}->{} has rank(src)={:?}, rank(dst)={:?}", what, es, ed, after.rank[es], after.rank.get(ed)), json!("rank(src) < rank(dst)"), brief(&after, &[es]))));
+          }
+        }
+      }
+      Prop::C11 => {
+        for i in 0..n {
+          out.queries += 2;
+          if after.out[i] != reference.out[i] {
+            return Some((at, fail("C11/outgoing-edges", format!("after {}: outgoing (child,data) list of node {} is {:?}, the true edge set in insertion order gives {:?}", what, i, after.out[i], reference.out[i]), json!(reference.out[i]), json!(after.out[i]))));
+          }
+          if after.inc[i] != reference.inc[i] {
+            return Some((at, fail("C11/incoming-edges", format!("after {}: incoming (parent,data) list of node {} is {:?}, the true edge set in insertion order gives {:?}", what, i, after.inc[i], reference.inc[i]), json!(reference.inc[i]), json!(after.inc[i]))));
+          }
+        }
+        out.queries += 1;
+        if expected == Ok(false) && after != before {
+          return Some((at, fail("C11/reinsertion-changed-state", format!("{} re-inserted an existing edge but changed ranks or adjacency", what), brief(&before, &around), brief(&after, &around))));
+        }
+        if at == case.test_at || at + 1 == case.ops.len() {
+          if let Some(f) = sweep_battery(&dag, &handles, &index, &reference, &after, &interesting, &mut out.queries, &what, "after") { return Some((at, f)); }
+        }
+      }
+    }
+    before = after;
+  }
+  None
+}
+
+/// The C11 queries over all ordered pairs of the interesting nodes, against the reference.
+fn sweep_battery(dag: &DAG<u32, u32>, handles: &[Node], index: &HashMap<Node, usize>, reference: &SweepRef, snap: &SweepSnap, interesting: &[usize], q: &mut u64, what: &str, when: &str) -> Option<Fail> {
+  let res = catch_unwind(AssertUnwindSafe(|| -> Option<Fail> {
+    let mut count = 0u64;
+    let r = (|| {
+      let ix = |x: &Node| index.get(x).copied().unwrap_or(usize::MAX);
+      for &i in interesting {
+        let h = handles[i];
+        let reach = reference.reach(i);
+        count += 2;
+        if !dag.contains_node(h) || dag.get_node_data(h).copied() != Some(i as u32) {
+          return Some(fail("C11/contains_node", format!("{} {}: node {} is not contained or carries wrong data", when, what, i), json!(i), json!(dag.get_node_data(h))));
+        }
+        count += 4;
+        let got: Vec<(usize, u32)> = dag.get_outgoing_edges(h).map(|(c, d)| (ix(c), *d)).collect();
+        if got != reference.out[i] { return Some(fail("C11/get_outgoing_edges", format!("{} {}: get_outgoing_edges({}) = {:?}", when, what, i, got), json!(reference.out[i]), json!(got))); }
+        let got: Vec<u32> = dag.get_outgoing_edge_node_data(h).copied().collect();
+        if got != reference.out[i].iter().map(|c| c.0 as u32).collect::<Vec<_>>() { return Some(fail("C11/get_outgoing_edge_node_data", format!("{} {}: get_outgoing_edge_node_data({}) = {:?}", when, what, i, got), json!(reference.out[i]), json!(got))); }
+        let got: Vec<(usize, u32)> = dag.get_incoming_edges(h).map(|(p, d)| (ix(p), *d)).collect();
+        if got != reference.inc[i] { return Some(fail("C11/get_incoming_edges", format!("{} {}: get_incoming_edges({}) = {:?}", when, what, i, got), json!(reference.inc[i]), json!(got))); }
+        let got: Vec<u32> = dag.get_incoming_edge_data(h).copied().collect();
+        if got != reference.inc[i].iter().map(|c| c.1).collect::<Vec<_>>() { return Some(fail("C11/get_incoming_edge_data", format!("{} {}: get_incoming_edge_data({}) = {:?}", when, what, i, got), json!(reference.inc[i]), json!(got))); }
+
+        let mut expected: Vec<usize> = (0..reach.len()).filter(|j| reach[*j]).collect();
+        expected.sort();
+        count += 2;
+        match dag.descendants_unsorted(h) {
+          Err(e) => return Some(fail("C11/descendants_unsorted", format!("{} {}: descendants_unsorted({}) = Err({:?})", when, what, i, e), json!("Ok"), json!(format!("{:?}", e)))),
+          Ok(it) => {
+            let items: Vec<(u32, usize)> = it.map(|(r, x)| (r, ix(&x))).collect();
+            let mut got: Vec<usize> = items.iter().map(|x| x.1).collect();
+            got.sort();
+            if got != expected || items.iter().any(|(r, x)| snap.rank.get(*x).copied().flatten() != Some(*r)) {
+              return Some(fail("C11/descendants_unsorted", format!("{} {}: descendants_unsorted({}) yields (rank,node) {:?}", when, what, i, items), json!(expected), json!(items)));
+            }
+          }
+        }
+        match dag.descendants(h) {
+          Err(e) => return Some(fail("C11/descendants", format!("{} {}: descendants({}) = Err({:?})", when, what, i, e), json!("Ok"), json!(format!("{:?}", e)))),
+          Ok(it) => {
+            let items: Vec<usize> = it.map(|x| ix(&x)).collect();
+            let mut got = items.clone();
+            got.sort();
+            let ranks: Vec<Option<u32>> = items.iter().map(|x| snap.rank.get(*x).copied().flatten()).collect();
+            if got != expected || !ranks.windows(2).all(|w| w[0].is_some() && w[0] < w[1]) {
+              return Some(fail("C11/descendants", format!("{} {}: descendants({}) yields {:?} with ranks {:?}", when, what, i, items, ranks), json!(expected), json!(items)));
+            }
+          }
+        }
+        for (pos, &j) in interesting.iter().enumerate() {
+          let g = handles[j];
+          let data = reference.has(i, j);
+          count += 5;
+          if dag.contains_edge(h, g) != data.is_some() || dag.get_edge_data(h, g).copied() != data {
+            return Some(fail("C11/contains_edge", format!("{} {}: contains_edge / get_edge_data({},{}) = {} / {:?}", when, what, i, j, dag.contains_edge(h, g), dag.get_edge_data(h, g)), json!(data), json!(dag.get_edge_data(h, g))));
+          }
+          let want = i != j && reach[j];
+          let (r1, r2) = (dag.contains_transitive_edge(h, g), dag.contains_transitive_edge(h, g));
+          let other = handles[interesting[(pos + 1) % interesting.len()]];
+          dag.contains_transitive_edge(other, g);
+          let r3 = dag.contains_transitive_edge(h, g);
+          if r1 != want || r2 != want || r3 != want {
+            return Some(fail("C11/contains_transitive_edge", format!("{} {}: contains_transitive_edge({},{}) answered {}, {} and, after another query, {}", when, what, i, j, r1, r2, r3), json!(want), json!([r1, r2, r3])));
+          }
+          let cmp = dag.topo_cmp(h, g);
+          if cmp != snap.rank[i].cmp(&snap.rank[j]) || (data.is_some() && cmp != std::cmp::Ordering::Less) {
+            return Some(fail("C11/topo_cmp", format!("{} {}: topo_cmp({},{}) = {:?} with ranks {:?}, {:?}", when, what, i, j, cmp, snap.rank[i], snap.rank[j]), json!("by rank; Less along an edge"), json!(format!("{:?}", cmp))));
+          }
+        }
+      }
+      None
+    })();
+    *q += count;
+    r
+  }));
+  match res {
+    Ok(r) => r,
+    Err(p) => Some(fail("C11/panic", format!("a query {} {} panicked: {}", when, what, panic_text(p)), json!("no panic"), json!("panic"))),
+  }
+}
+
+/// All shapes for all d in 1..=max_d, distances spread over the threads; deterministic (results merged by d, shape).
+fn sweep(prop: Prop, max_d: usize, threads: usize) -> SweepOut {
+  let cursor = AtomicUsize::new(1);
+  let mut parts: Vec<(usize, SweepOut)> = std::thread::scope(|s| {
+    let workers: Vec<_> = (0..threads.max(1)).map(|_| {
+      let cursor = &cursor;
+      s.spawn(move || {
+        let mut mine = Vec::new();
+        loop {
+          // Large distances first would balance better, but order does not matter for the result.
+          let d = cursor.fetch_add(1, AtomicOrdering::Relaxed);
+          if d > max_d { break; }
+          let mut out = SweepOut::default();
+          for shape in SWEEP_SHAPES {
+            if let Some(case) = sweep_case(d, shape) {
+              if let Some((at, f)) = run_sweep_case(prop, &case, &mut out) {
+                // Confirm on a second fresh execution; anything else is a non-reproducible execution.
+                let again = run_sweep_case(prop, &case, &mut SweepOut::default());
+                match again {
+                  Some((at2, f2)) if at2 == at && f2.oracle == f.oracle => out.fails.push((case, at, f)),
+                  _ => engine_error(&format!("sweep case d={} shape={} failed ({}) but not when executed again", d, shape, f.oracle)),
+                }
+              }
+            }
+          }
+          mine.push((d, out));
+        }
+        mine
+      })
+    }).collect();
+    let mut all = Vec::new();
+    for w in workers {
+      match w.join() {
+        Ok(v) => all.extend(v),
+        Err(p) => engine_error(&format!("sweep worker panicked: {}", panic_text(p))),
+      }
+    }
+    all
+  });
+  parts.sort_by_key(|p| p.0);
+  let mut total = SweepOut::default();
+  for (_, o) in parts {
+    total.cases += o.cases;
+    total.operations += o.operations;
+    total.queries += o.queries;
+    total.cycles_rejected += o.cycles_rejected;
+    total.reorderings += o.reorderings;
+    total.fails.extend(o.fails);
+  }
+  total
+}
+
+fn sweep_violation(prop: Prop, case: &SweepCase, at: usize, f: &Fail) -> Violation {
+  Violation {
+    property: prop.id().to_string(),
+    oracle: f.oracle.clone(),
+    key: String::new(),
+    what: format!("{} [rank-distance sweep, d={}, shape {}: {}]", f.what, case.d, case.shape, sweep_ops_text(case, at).join("; ")),
+    replay: json!({
+      "ops": sweep_ops_text(case, at),
+      "sweep_case": {"d": case.d, "shape": case.shape},
+      "expected": f.expected,
+      "observed": f.observed,
+      "marker_rule": "the add_edge at 0-based position p of the case carries edge data p+1; node data = creation index",
+    }),
   }
 }
 
@@ -1500,7 +1961,7 @@ alphabet per state: add_node (while fewer than `nodes_ever_created` handles exis
 add_edge(i,j,fresh marker), remove_edge(i,j), remove_outgoing_edges_of_node(i), remove_node(i); every transition replays the state's shortest \
 operation path on a fresh DAG, executes the operation, and evaluates the property's oracles; states = complete observable API state \
 (alive, rank, ordered outgoing/incoming adjacency with data, len, stray edge data) by creation index with edge markers renumbered by first \
-appearance, plus the oracle-relevant model state where the dump does not determine it, plus the slotmap slot assignment (slot per handle, freed slots in order) so that dead handles whose slot was reused are exercised as such, plus a one-step taint: if the last operation changed nothing observable (rejected or repeated add_edge, remove_* returning None / false) the state also carries that operation, so every operation is also executed right after every observable no-op and hidden scratch state left behind by no-ops is exercised; merged on exact equality of these bytes; level-synchronous over 16 threads with deterministic merge, to fixed point or cap; after the first level with a violation the search runs two more levels and stops";
+appearance, plus the oracle-relevant model state where the dump does not determine it, plus the slotmap slot assignment (slot per handle, freed slots in order) so that dead handles whose slot was reused are exercised as such, plus a one-step taint: if the last operation changed nothing observable (rejected or repeated add_edge, remove_* returning None / false) the state also carries that operation, so every operation is also executed right after every observable no-op and hidden scratch state left behind by no-ops is exercised; merged on exact equality of these bytes; level-synchronous over 16 threads with deterministic merge, to fixed point or cap; after the first level with a violation the search runs two more levels and stops. Further phases: (i) add_edge-only sequences over N nodes all created first, up to E edges, states merged modulo renaming of the nodes to their ranks, complete query battery after every transition; (ii) rank-distance sweep: for every d in 1..=D and a fixed list of shapes, an insertion whose affected region spans exactly d+1 ranks (plain, with chains on either side, spread, fan, at an offset, and closing a cycle in four ways), then its repetition and the reverse edge, invariants after every operation";
 
 fn make_violation(prop: Prop, path: &[Op], f: &Fail, a: Option<usize>) -> Violation {
   Violation {
@@ -1526,8 +1987,37 @@ fn quiet_panics<T>(f: impl FnOnce() -> T) -> T {
   r
 }
 
+/// Quick tier: `add_edge`-only sequences over this many nodes with at most this many edges.
+const QUICK_EDGES_ONLY: (usize, usize) = (5, 6);
+
+fn phase_label(o: &SearchOut) -> String {
+  match o.bounds.mode {
+    Mode::Full => format!("A={}", o.bounds.nodes_ever_created),
+    Mode::EdgesOnly { max_edges } => format!("add_edge-only N={} E<={}", o.bounds.nodes_ever_created, max_edges),
+  }
+}
+
 fn phase_json(o: &SearchOut) -> Value {
+  if let Mode::EdgesOnly { max_edges } = o.bounds.mode {
+    return json!({
+      "phase": phase_label(o),
+      "rule": "add_node x N first, then add_edge(i,j) for all ordered pairs (self loops, re-insertions, cycle-closing insertions included) while fewer than E edges are present, afterwards only the insertions that must not add an edge; all oracles of the property incl. the complete C11 query battery after every transition; states merged modulo renaming of the nodes (every node renamed to its rank), no taint",
+      "nodes": o.bounds.nodes_ever_created,
+      "max_edges": max_edges,
+      "states_modulo_node_renaming": o.states,
+      "transitions": o.stats.transitions,
+      "queries_checked": o.stats.queries,
+      "query_batteries_run": o.stats.batteries,
+      "fixed_point_reached": o.fixed_point,
+      "cap_hit": o.cap_hit,
+      "max_depth": o.max_depth,
+      "states_first_seen_per_depth": o.level_sizes,
+      "violating_transitions": o.violating_transitions,
+      "wall_s": (o.wall_s * 10.0).round() / 10.0,
+    });
+  }
   json!({
+    "phase": phase_label(o),
     "nodes_ever_created": o.bounds.nodes_ever_created,
     "states": o.states,
     "states_of_which_tainted_by_a_preceding_noop": o.tainted_states,
@@ -1565,40 +2055,71 @@ pub fn run(args: &Args) -> i32 {
   let mut rep = Report::new(args);
   let threads = std::thread::available_parallelism().map(|n| n.get()).unwrap_or(16);
   let (state_cap, wall_cap_s) = match args.tier { Tier::Quick => (1_000_000usize, 120.0f64), Tier::Thorough => (3_000_000usize, 600.0f64) };
-  // Quick: A = 4 to fixed point. Thorough: the same, then A = 5 under the state / wall cap.
-  let mut plan: Vec<usize> = match args.tier { Tier::Quick => vec![4], Tier::Thorough => vec![4, 5] };
-  // Experiment overrides (recorded in the evidence through `bounds` / `phases`): nodes=N cap=N wall=S
+  // Quick: full alphabet with A = 4 to fixed point; add_edge-only sequences over 5 nodes; rank-distance sweep to 160.
+  // Thorough: full alphabet A = 4, then A = 5 under the state / wall cap; add_edge-only over 5 nodes (all edge
+  // counts) and over 6 nodes (up to 6 edges); rank-distance sweep to 600.
+  let thorough = args.tier == Tier::Thorough;
+  let mut plan: Vec<(Mode, usize, bool)> = match args.tier {
+    Tier::Quick => vec![(Mode::Full, 4, false), (Mode::EdgesOnly { max_edges: QUICK_EDGES_ONLY.1 }, QUICK_EDGES_ONLY.0, true)],
+    // (the phase that is meant to run into its cap comes last)
+    Tier::Thorough => vec![(Mode::Full, 4, true), (Mode::EdgesOnly { max_edges: 10 }, 5, true), (Mode::EdgesOnly { max_edges: 6 }, 6, true), (Mode::Full, 5, true)],
+  };
+  let mut sweep_max_d = if thorough { 600 } else { 160 };
+  // Experiment overrides (recorded in the evidence through `bounds` / `phases`): nodes=N edges=N,E sweep=D cap=N wall=S
   let (mut state_cap, mut wall_cap_s) = (state_cap, wall_cap_s);
   for x in &args.extra {
-    if let Some(v) = x.strip_prefix("nodes=").and_then(|v| v.parse().ok()) { plan = vec![v]; }
+    if let Some(v) = x.strip_prefix("nodes=").and_then(|v| v.parse().ok()) { plan = vec![(Mode::Full, v, thorough)]; sweep_max_d = 0; }
+    else if let Some((n, e)) = x.strip_prefix("edges=").and_then(|v| v.split_once(',')).and_then(|(n, e)| Some((n.parse().ok()?, e.parse().ok()?))) { plan = vec![(Mode::EdgesOnly { max_edges: e }, n, true)]; sweep_max_d = 0; }
+    else if let Some(v) = x.strip_prefix("sweep=").and_then(|v| v.parse().ok()) { plan = vec![]; sweep_max_d = v; }
     else if let Some(v) = x.strip_prefix("cap=").and_then(|v| v.parse().ok()) { state_cap = v; }
     else if let Some(v) = x.strip_prefix("wall=").and_then(|v| v.parse().ok()) { wall_cap_s = v; }
     else { eprintln!("unknown argument {}", x); return 2; }
   }
   let mut outs: Vec<SearchOut> = Vec::new();
-  for a in plan {
-    let b = Bounds { nodes_ever_created: a, state_cap, wall_cap_s: (wall_cap_s - rep.elapsed()).max(1.0), threads, battery_after_every_transition: args.tier == Tier::Thorough };
+  for (mode, a, battery) in plan {
+    let b = Bounds { mode, nodes_ever_created: a, state_cap, wall_cap_s: (wall_cap_s - rep.elapsed()).max(1.0), threads, battery_after_every_transition: battery };
     outs.push(quiet_panics(|| search(prop, &b)));
   }
+  let sweep_start = Instant::now();
+  let swept = quiet_panics(|| sweep(prop, sweep_max_d, threads));
+  let sweep_wall = sweep_start.elapsed().as_secs_f64();
 
   let mut total = Stats::default();
   for o in &outs { total.absorb(&o.stats); }
   let states: usize = outs.iter().map(|o| o.states).sum();
-  let last = outs.last().unwrap();
   let all_fixed = outs.iter().all(|o| o.fixed_point);
-  let exhaustive_a = outs.iter().filter(|o| o.fixed_point).map(|o| o.bounds.nodes_ever_created).max();
+  let exhaustive_a = outs.iter().filter(|o| o.fixed_point && o.bounds.mode == Mode::Full).map(|o| o.bounds.nodes_ever_created).max();
+  total.transitions += swept.operations;
+  total.queries += swept.queries;
   rep.set("states", json!(states));
   rep.set("transitions", json!(total.transitions));
   rep.set("traces_validated_against_impl", json!(total.transitions));
+  rep.set("rank_distance_sweep", json!({
+    "distances": if sweep_max_d > 0 { json!(format!("every d in 1..={}", sweep_max_d)) } else { json!("none") },
+    "shapes": SWEEP_SHAPES,
+    "rule": "d+1 (+5 with offset) nodes in creation order, the shape's edges along the order, then add_edge(node ranked d after lo, lo): the affected region spans exactly d+1 ranks; then the same insertion again and the reverse edge; property invariants after every operation, C11 query battery over all ordered pairs of up to ~16 interesting nodes before and after the insertion and at the end",
+    "cases": swept.cases,
+    "operations": swept.operations,
+    "query_comparisons": swept.queries,
+    "insertions_that_reordered_ranks": swept.reorderings,
+    "cyclic_insertions_rejected": swept.cycles_rejected,
+    "violating_cases": swept.fails.len(),
+    "wall_s": (sweep_wall * 10.0).round() / 10.0,
+  }));
   rep.set("impl_operations_executed_in_replays", json!(total.replayed_ops));
   rep.set("queries_checked", json!(total.queries));
   rep.set("exhaustive", json!(all_fixed));
   rep.set("fixed_point_reached", json!(all_fixed));
   rep.set("exhaustive_for_nodes_ever_created", json!(exhaustive_a));
   rep.set("max_depth", json!(outs.iter().map(|o| o.max_depth).max().unwrap_or(0)));
-  rep.set("depth_completely_covered", if last.fixed_point { json!("all (fixed point)") } else { json!(last.depth_completely_covered) });
-  rep.set("cap_hit", json!(last.cap_hit));
-  rep.set("bounds", json!({"nodes_ever_created": last.bounds.nodes_ever_created, "state_cap": state_cap, "wall_cap_s": wall_cap_s, "threads": threads}));
+  let capped = outs.iter().find(|o| !o.fixed_point);
+  rep.set("depth_completely_covered", match capped { None => json!("all (fixed point in every phase)"), Some(o) => json!(format!("{} in phase {}", o.depth_completely_covered, phase_label(o))) });
+  rep.set("cap_hit", json!(capped.and_then(|o| o.cap_hit)));
+  rep.set("bounds", json!({
+    "nodes_ever_created": outs.iter().filter(|o| o.bounds.mode == Mode::Full).map(|o| o.bounds.nodes_ever_created).max(),
+    "add_edge_only_phases (nodes, max edges)": outs.iter().filter_map(|o| match o.bounds.mode { Mode::EdgesOnly { max_edges } => Some((o.bounds.nodes_ever_created, max_edges)), _ => None }).collect::<Vec<_>>(),
+    "rank_distance_sweep_max_d": sweep_max_d,
+    "state_cap": state_cap, "wall_cap_s": wall_cap_s, "threads": threads}));
   rep.set("phases", Value::Array(outs.iter().map(phase_json).collect()));
   let outcomes: serde_json::Map<String, Value> = total.outcomes.iter().map(|(k, v)| (k.to_string(), json!(v))).collect();
   rep.set("distinct_outcomes", json!({"count": outcomes.len(), "observed (operation -> result: transitions)": outcomes}));
@@ -1631,8 +2152,8 @@ topo_cmp for all handles / ordered pairs ever created",
   let mut reported: Vec<Vec<Op>> = Vec::new();
   for o in &outs {
     println!(
-      "{} A={}: {} states, {} transitions, {} query comparisons, max depth {}, {} ({:.1}s)",
-      prop.id(), o.bounds.nodes_ever_created, o.states, o.stats.transitions, o.stats.queries, o.max_depth,
+      "{} {}: {} states, {} transitions, {} query comparisons, max depth {}, {} ({:.1}s)",
+      prop.id(), phase_label(o), o.states, o.stats.transitions, o.stats.queries, o.max_depth,
       if o.fixed_point { "fixed point reached".to_string() } else { format!("{} hit, sequences up to length {} completely covered", o.cap_hit.unwrap_or("cap"), o.depth_completely_covered) },
       o.wall_s
     );
@@ -1641,6 +2162,17 @@ topo_cmp for all handles / ordered pairs ever created",
       reported.push(path.clone());
       rep.violation(make_violation(prop, path, f, Some(o.bounds.nodes_ever_created)));
     }
+  }
+  if sweep_max_d > 0 {
+    println!("{} rank-distance sweep d=1..={}: {} cases, {} operations, {} query comparisons, {} violating case(s) ({:.1}s)",
+      prop.id(), sweep_max_d, swept.cases, swept.operations, swept.queries, swept.fails.len(), sweep_wall);
+  }
+  // Smallest distance first; at most two per oracle.
+  let mut per_oracle: BTreeMap<String, usize> = BTreeMap::new();
+  for (case, at, f) in &swept.fails {
+    let n = per_oracle.entry(f.oracle.clone()).or_insert(0);
+    if *n < 2 { rep.violation(sweep_violation(prop, case, *at, f)); }
+    *n += 1;
   }
   rep.finish()
 }
@@ -1683,6 +2215,9 @@ fn run_replay(args: &Args, prop: Prop, file: &std::path::Path) -> i32 {
     Ok(v) => v,
     Err(e) => engine_error(&format!("replay file {} does not parse: {}", file.display(), e)),
   };
+  if let Some(sc) = v.get("replay").and_then(|r| r.get("sweep_case")) {
+    return run_sweep_replay(args, prop, sc);
+  }
   let Some(list) = v.get("replay").and_then(|r| r.get("ops")).and_then(|o| o.as_array()) else {
     engine_error("replay file has no replay.ops array");
   };
@@ -1725,6 +2260,38 @@ fn run_replay(args: &Args, prop: Prop, file: &std::path::Path) -> i32 {
   rep.finish()
 }
 
+/// Replay of one case of the rank-distance sweep (`replay.sweep_case` = {d, shape}): executed twice on fresh DAGs.
+fn run_sweep_replay(args: &Args, prop: Prop, sc: &Value) -> i32 {
+  let d = sc.get("d").and_then(|d| d.as_u64()).unwrap_or_else(|| engine_error("replay.sweep_case has no d")) as usize;
+  let name = sc.get("shape").and_then(|s| s.as_str()).unwrap_or_else(|| engine_error("replay.sweep_case has no shape"));
+  let Some(shape) = SWEEP_SHAPES.iter().copied().find(|s| *s == name) else { engine_error(&format!("unknown sweep shape {}", name)) };
+  let Some(case) = sweep_case(d, shape) else { engine_error(&format!("sweep shape {} does not exist at distance {}", shape, d)) };
+  let mut rep = Report::new(args);
+  let mut out = SweepOut::default();
+  let first = quiet_panics(|| run_sweep_case(prop, &case, &mut out));
+  let second = quiet_panics(|| run_sweep_case(prop, &case, &mut SweepOut::default()));
+  if first.as_ref().map(|f| (f.0, f.1.oracle.clone())) != second.as_ref().map(|f| (f.0, f.1.oracle.clone())) {
+    engine_error("two executions of the sweep case on fresh DAGs gave different outcomes");
+  }
+  rep.set("mode", json!("replay of a rank-distance sweep case"));
+  rep.set("states", json!(out.operations + 1));
+  rep.set("transitions", json!(out.operations));
+  rep.set("traces_validated_against_impl", json!(out.operations));
+  rep.set("queries_checked", json!(out.queries));
+  rep.set("samples", json!([sweep_ops_text(&case, case.ops.len() - 1)]));
+  rep.set("exhaustive", json!(false));
+  rep.set("fixed_point_reached", json!(false));
+  rep.set("max_depth", json!(case.nodes + case.ops.len()));
+  rep.set("bounds", json!({"nodes_ever_created": case.nodes, "state_cap": null, "wall_cap_s": null}));
+  rep.set("distinct_outcomes", json!({"count": 1, "observed": {"cyclic insertions rejected": out.cycles_rejected, "insertions that reordered ranks": out.reorderings}}));
+  rep.set("rule", json!("replay of one case of the rank-distance sweep, executed twice on fresh DAGs with the property's oracles after every operation"));
+  match first {
+    Some((at, f)) => rep.violation(sweep_violation(prop, &case, at, &f)),
+    None => println!("replay: no violation"),
+  }
+  rep.finish()
+}
+
 // ---------------------------------------------------------------------------------------------------------------
 // Tests
 // ---------------------------------------------------------------------------------------------------------------
@@ -1733,7 +2300,7 @@ fn run_replay(args: &Args, prop: Prop, file: &std::path::Path) -> i32 {
 mod tests {
   use super::*;
 
-  fn bounds(a: usize) -> Bounds { Bounds { nodes_ever_created: a, state_cap: 1_000_000, wall_cap_s: 600.0, threads: 4, battery_after_every_transition: true } }
+  fn bounds(a: usize) -> Bounds { Bounds { mode: Mode::Full, nodes_ever_created: a, state_cap: 1_000_000, wall_cap_s: 600.0, threads: 4, battery_after_every_transition: true } }
 
   fn run_path(ops: &[Op]) -> (Real, Model) {
     let mut real = Real::new();
@@ -1789,6 +2356,51 @@ mod tests {
       assert!(matches!(path.last(), Some(Op::AddEdge(_, _))));
     }
     assert!(a.stats.queries > a.stats.transitions);
+  }
+
+  #[test]
+  fn edges_only_search_and_sweep_hold_on_the_real_dag() {
+    for prop in [Prop::C10, Prop::C11] {
+      let b = Bounds { mode: Mode::EdgesOnly { max_edges: 3 }, nodes_ever_created: 4, ..bounds(4) };
+      let a = search(prop, &b);
+      assert!(a.fixed_point && a.fails.is_empty(), "{:?}", a.fails);
+      // 4 nodes, at most 3 edges, nodes renamed to their ranks: far fewer states than labelled graphs with orders.
+      assert!(a.states > 50 && a.states < 2000, "{}", a.states);
+      assert!(a.stats.outcomes.get("add_edge -> Err(CycleDetected) [path back]").copied().unwrap_or(0) > 0);
+      let s = sweep(prop, 70, 4);
+      assert!(s.fails.is_empty(), "{:?}", s.fails);
+      assert!(s.cases > 500 && s.cycles_rejected > 200 && s.reorderings > 300);
+    }
+  }
+
+  #[test]
+  fn sweep_shapes_are_well_formed() {
+    for d in 1..=40 {
+      for shape in SWEEP_SHAPES {
+        if let Some(c) = sweep_case(d, shape) {
+          let (hi, lo) = c.ops[c.test_at];
+          assert_eq!(hi - lo, d);
+          assert!(c.ops.iter().all(|(s, t)| *s < c.nodes && *t < c.nodes && s != t));
+          // Everything before the insertion under test goes along the creation order.
+          assert!(c.ops[..c.test_at].iter().all(|(s, t)| s < t));
+        }
+      }
+    }
+    assert!(sweep_case(64, "plain").is_some() && sweep_case(1, "both-chains").is_none());
+  }
+
+  #[test]
+  fn renaming_by_rank_merges_isomorphic_states() {
+    // 0->1 on nodes (0,1,2) and 2->1 ... after reordering: the same shape up to renaming.
+    let (r1, m1) = run_path(&[Op::AddNode, Op::AddNode, Op::AddNode, Op::AddEdge(0, 1)]);
+    let (r2, m2) = run_path(&[Op::AddNode, Op::AddNode, Op::AddNode, Op::AddEdge(1, 2)]);
+    let (r3, m3) = run_path(&[Op::AddNode, Op::AddNode, Op::AddNode, Op::AddEdge(0, 2)]);
+    let mode = Mode::EdgesOnly { max_edges: 3 };
+    let k = |r: &Real, m: &Model| state_key(Prop::C11, mode, &observe(r), m, r, None);
+    assert_ne!(k(&r1, &m1), k(&r2, &m2)); // edge between ranks 1,2 vs ranks 2,3
+    assert_ne!(k(&r1, &m1), k(&r3, &m3));
+    let (r4, m4) = run_path(&[Op::AddNode, Op::AddNode, Op::AddNode, Op::AddEdge(1, 0)]); // reorders: 1 gets rank 1, 0 rank 2
+    assert_eq!(k(&r1, &m1), k(&r4, &m4));
   }
 
   #[test]
